@@ -193,6 +193,9 @@ def gen_case(seed, tier='quick'):
     def kind():
         return rng.choices(CONSTRUCTS, weights)[0]
 
+    link_heavy = rng.random() < 0.15       # mostly bare references
+    if link_heavy:
+        weights = [90, 2, 2, 4, 2, 0]
     lower = lambda i: (lambda j: j < i)          # noqa: E731
     anyj = lambda i: (lambda j: True)            # noqa: E731
     ctx['allowed'] = lower
@@ -246,6 +249,8 @@ def gen_case(seed, tier='quick'):
         rng.shuffle(terms)
         nodes.append({'a': addrs[i], 'k': rng.randint(0, 9), 'terms': terms,
                       'fail': None})
+        if link_heavy and rng.random() < 0.7 or rng.random() < 0.1:
+            nodes[-1]['link'] = True
 
     if cls == 'selfloop':
         i = rng.randrange(n)
@@ -459,6 +464,11 @@ def render(world):
             parts = parts + ['1/0']
         if nd.get('pause') and len(parts) > 1:
             body = f'PAUSE({body})'
+        if nd.get('link') and len(nd['terms']) == 1 and \
+                nd['terms'][0]['t'] == 'ref' and nd['fail'] is None \
+                and not nd.get('errval') and not nd.get('pause'):
+            # a pure link cell: the formula is one bare reference
+            body = _ref(sheet, nd['terms'][0]['to'], q, s0)
         if len(parts) == 1 and nd['fail'] is None:
             cells[nd['a']] = nd['k']
         else:
@@ -548,6 +558,10 @@ class Graph:
         for x in order:
             nd = self.nodes[x]
             v = nd['k']
+            if nd.get('link') and len(nd['terms']) == 1 and \
+                    nd['terms'][0]['t'] == 'ref' and nd['fail'] is None \
+                    and not nd.get('errval') and not nd.get('pause'):
+                v = 0
             for t in nd['terms']:
                 k = t['t']
                 if k in ('ref', 'name', 'guard'):
